@@ -24,38 +24,61 @@ pub fn openpty(
     let use_flags: OpenFlags = OpenFlags::O_RDWR | OpenFlags::O_NOCTTY;
     unsafe {
         let master = open(PTMX, use_flags)?;
-        let mut pty_num = 0;
-        let pty_num_addr = core::ptr::addr_of_mut!(pty_num);
-        // Todo: Maybe check if not zero and bail like musl does
-        ioctl(
-            master,
-            TermioFlags::TIOCSPTLCK.bits(),
-            pty_num_addr as usize,
-        )?;
-        ioctl(master, TermioFlags::TIOCGPTN.bits(), pty_num_addr as usize)?;
-        let slave = if let Some(name) = name {
-            open(name, use_flags)?
-        } else {
-            let bytename: u8 = pty_num.try_into().map_err(|_| {
-                crate::error::Error::no_code("Terminal number exceeded u8::MAX or was negative")
-            })?;
-            // To do this without an allocator have to format this string manually
-            // on the stack.
-            let name = create_pty_name(bytename);
-            open_raw(core::ptr::addr_of!(name) as usize, use_flags)?
-        };
-        if let Some(tio) = termios {
-            tcsetattr(slave, SetAction::NOW, tio)?;
+        match setup_slave(master, use_flags, name, termios, winsize) {
+            Ok(slave) => Ok(TerminalHandle { master, slave }),
+            Err(e) => {
+                // Don't leak the master if anything after opening it fails
+                let _ = rusl::unistd::close(master);
+                Err(e)
+            }
         }
-        if let Some(winsize) = winsize {
-            ioctl(
-                slave,
-                TermioFlags::TIOCSWINSZ.bits(),
-                core::ptr::addr_of!(winsize) as usize,
-            )?;
-        }
-        Ok(TerminalHandle { master, slave })
     }
+}
+
+unsafe fn setup_slave(
+    master: Fd,
+    use_flags: OpenFlags,
+    name: Option<&UnixStr>,
+    termios: Option<&Termios>,
+    winsize: Option<&WindowSize>,
+) -> crate::error::Result<Fd> {
+    let mut pty_num = 0;
+    let pty_num_addr = core::ptr::addr_of_mut!(pty_num);
+    // Todo: Maybe check if not zero and bail like musl does
+    ioctl(
+        master,
+        TermioFlags::TIOCSPTLCK.bits(),
+        pty_num_addr as usize,
+    )?;
+    ioctl(master, TermioFlags::TIOCGPTN.bits(), pty_num_addr as usize)?;
+    let slave = if let Some(name) = name {
+        open(name, use_flags)?
+    } else {
+        let bytename: u8 = pty_num.try_into().map_err(|_| {
+            crate::error::Error::no_code("Terminal number exceeded u8::MAX or was negative")
+        })?;
+        // To do this without an allocator have to format this string manually
+        // on the stack.
+        let name = create_pty_name(bytename);
+        open_raw(core::ptr::addr_of!(name) as usize, use_flags)?
+    };
+    if let Some(tio) = termios {
+        if let Err(e) = tcsetattr(slave, SetAction::NOW, tio) {
+            let _ = rusl::unistd::close(slave);
+            return Err(e.into());
+        }
+    }
+    if let Some(winsize) = winsize {
+        if let Err(e) = ioctl(
+            slave,
+            TermioFlags::TIOCSWINSZ.bits(),
+            core::ptr::addr_of!(winsize) as usize,
+        ) {
+            let _ = rusl::unistd::close(slave);
+            return Err(e.into());
+        }
+    }
+    Ok(slave)
 }
 
 #[derive(Debug, Copy, Clone)]
